@@ -206,6 +206,8 @@ pub fn v_opt_as_deref<'a>(o: &'a Option<String>) -> (r: Option<&'a str>)
     ensures (r is Some) == (o is Some), r matches Some(s) ==> s@ == o.unwrap()@
 { o.as_deref() }
 pub trait VRead {}
+/// the library call that was handed this sink reported success (ghost; only the kestrel_crypto stubs below establish it)
+pub uninterp spec fn lib_accepted(w: Box<dyn VWrite>) -> bool;
 pub struct EncryptError;
 pub enum PassFileFormat { V1 }
 pub mod encrypt {
@@ -216,6 +218,7 @@ pub mod encrypt {
     #[verifier::external_body]
     pub fn pass_encrypt(plaintext: &mut Box<dyn VRead>, ciphertext: &mut Box<dyn VWrite>, password: &[u8], salt: [u8; 32], file_format: PassFileFormat)
         -> (r: Result<(), EncryptError>)
+        ensures (r is Ok) == lib_accepted(*final(ciphertext))
     { unimplemented!() }
 }
 
@@ -228,6 +231,7 @@ pub mod decrypt {
     #[verifier::external_body]
     pub fn pass_decrypt(ciphertext: &mut Box<dyn VRead>, plaintext: &mut Box<dyn VWrite>, password: &[u8], file_format: PassFileFormat)
         -> (r: Result<(), DecryptError>)
+        ensures (r is Ok) == lib_accepted(*final(plaintext))
     { unimplemented!() }
 }
 pub enum AsymFileFormat { V1 }
@@ -243,6 +247,7 @@ pub mod encrypt_k {
         sender_public: &kestrel_crypto::PublicKey, recipient: &kestrel_crypto::PublicKey, ephemeral: Option<&kestrel_crypto::PrivateKey>,
         ephemeral_public: Option<&kestrel_crypto::PublicKey>, payload_key: Option<&PayloadKey>, file_format: AsymFileFormat)
         -> (r: Result<(), EncryptError>)
+        ensures (r is Ok) == lib_accepted(*final(ciphertext))
     { unimplemented!() }
 }
 pub mod decrypt_k {
@@ -251,7 +256,7 @@ pub mod decrypt_k {
     #[verifier::external_body]
     pub fn key_decrypt(ciphertext: &mut Box<dyn VRead>, plaintext: &mut Box<dyn VWrite>, recipient: &kestrel_crypto::PrivateKey,
         recipient_public: &kestrel_crypto::PublicKey, file_format: AsymFileFormat) -> (r: Result<kestrel_crypto::PublicKey, DecryptError>)
-        ensures r matches Ok(pk) ==> pk.wf()
+        ensures r matches Ok(pk) ==> pk.wf(), (r is Ok) == lib_accepted(*final(plaintext))
     { unimplemented!() }
 }
 /// std::fs::read / String::from_utf8 as open_keyring uses them: total, results unconstrained
